@@ -75,6 +75,7 @@ struct Plan {
   uint64_t seed = 0;
   long run = 0;
   std::string variant;
+  std::string binary;  // "" / "asan": default build; "tsan": the violation is a ThreadSanitizer report, replay with the TSan build
   World world;
   bool probe = false;    // C12: classify every live instance after every setter/create/destroy
   bool recover = false;  // C17: after an operation failed because of an injected fault, set_offset(previous offset)
